@@ -111,6 +111,8 @@ type Exec struct {
 	inQuant   int
 	loopVisited map[int]string
 	loopIters   map[int]string
+	failSeq     int
+	pendingFail []pendingFail // failstop: error results of fail-stop calls seen so far
 	cloCells  map[string]*Closure
 	wlog      []writeRec
 	symAt     map[string]int
@@ -932,6 +934,14 @@ type Frame struct {
 	binders map[string]Val // contract binder name -> value (loop binders)
 	done    map[*ssa.BasicBlock]bool
 	rpo     []*ssa.BasicBlock
+}
+
+type pendingFail struct {
+	site  string
+	props []string
+	err   Term // the error result (sort Any)
+	reach Term
+	block *ssa.BasicBlock
 }
 
 type retInfo struct {
